@@ -15,7 +15,8 @@ MANIFEST = {
             "verifier answers, Publish results and eviction tie-breaks; limits >= 1): the three indexes agree (ids unique, fee "
             "queue = allTransactions, every pooled tx in exactly its sender's list at its nonce and vice versa), size <= "
             "MaxTransactions, per-sender size <= limit, one tx per (sender, nonce), a replacement needs fee >= old + "
-            "MinReplacementFeeDifference (no uint64 wrap) and the dropped tx leaves every index, eviction always finds a victim, "
+            "MinReplacementFeeDifference (no uint64 wrap; also read off the states: a pooled newcomer of an occupied (sender, nonce) slot always "
+            "pays the increase, whichever path - list replacement or full-pool eviction - removed the occupant) and the dropped tx leaves every index, eviction always finds a victim, "
             "processables are a gap-free ascending run of stored nonces whose txs passed verification in a reorg and are exactly "
             "the sender's lowest pooled nonces (never a run above a pooled, unprocessed lower nonce). Blocking: "
             "the lock skeletons of txpool.go/txlist.go/event.go, regenerated from /repo on every run, are safe programs, hence "
